@@ -1000,3 +1000,17 @@ mod tests {
         buffer
     }
 }
+
+#[cfg(feature = "verif")]
+impl Buffer {
+    pub(crate) fn verif_state(&self) -> crate::verif::BufferState {
+        crate::verif::BufferState {
+            lines: self.lines.clone(),
+            cols: self.cols,
+            rows: self.rows,
+            limit: self.scrollback_limit.as_ref().map(|l| l.soft),
+            hard_limit: self.scrollback_limit.as_ref().map(|l| l.hard),
+            trim_needed: self.trim_needed,
+        }
+    }
+}
